@@ -1,3 +1,160 @@
-//! C19 part b — tracker fault sequences in the simulation (scripted, gated tracker).
-use crate::util::{Ctx, Report};
-pub fn run(_ctx: &Ctx, _rep: &mut Report) {}
+//! C19 part b — tracker fault sequences against the real manager in the simulation.
+//! The scripted tracker is *gated*: it keeps failing until a probe connection that came in while
+//! it was failing has been answered (or 30 failing rounds have passed), so the verdict is causal
+//! and independent of machine load; then it replies with the peer list.
+
+use crate::checks::c02::{addr, peer_id};
+use crate::sim::peers::{seeder, SeederCfg};
+use crate::sim::{disk_never, fmt_ev, run_sim, Entry, EvKind, PeerSpec, SimCfg, TrackerStep};
+use crate::torrent::gen_sim_torrent;
+use crate::util::{hash64, panic_site, Ctx, Report, Rng, Tier};
+use crate::wire::{bitfield_bytes, Msg};
+use serde_json::json;
+use std::rc::Rc;
+
+pub const KINDS: [&str; 4] = ["connection-refused", "http-500", "garbage-body", "failure-reason"];
+
+fn step_of(kind: usize) -> TrackerStep {
+    match kind {
+        0 => TrackerStep::Fail("error sending request: connection refused".into()),
+        1 => TrackerStep::Fail("500 Internal Server Error".into()),
+        2 => TrackerStep::Body(b"<html>\x00\xffnot bencode".to_vec()),
+        _ => TrackerStep::Body(b"d14:failure reason19:torrent not allowede".to_vec()),
+    }
+}
+
+const MAX_ROUNDS_UNANSWERED: u64 = 30;
+
+pub fn run_one(ctx: &Ctx, rep: &mut Report, seq: &[usize], seed: u64, label: &str) {
+    let mut sr = Rng::new(seed);
+    let torrent = Rc::new(gen_sim_torrent(&mut sr, 4, true));
+    let n = torrent.n();
+    let l = seq.len() as u64;
+    // two listed seeders, one probe that connects in while the tracker is failing
+    let mut peers = vec![];
+    for k in 0..2 {
+        let mut s = SeederCfg::honest(peer_id(k), vec![true; n]);
+        s.unchoke_after_ms = Some(0);
+        let s2 = s.clone();
+        peers.push(PeerSpec { addr: addr(k), id: peer_id(k), entry: Entry::Dialled { from_announce: 0 }, make: Box::new(move |nth| if nth > 2 { None } else { Some(seeder(s2.clone())) }), chunk: 0, pipe: 1 << 20 });
+    }
+    let probe_addr = addr(9);
+    let probe_round = if l == 0 { 0 } else { sr.range(1, l.min(3)) };
+    let probe_at = 100 + 1100 * probe_round + 50;
+    let has_probe = l > 0;
+    if has_probe {
+        let mut first = Msg::handshake(&torrent.info_hash(), &peer_id(9)).encode();
+        first.extend_from_slice(&Msg::Bitfield(bitfield_bytes(&vec![false; n])).encode());
+        let script = vec![(0u64, first)];
+        peers.push(PeerSpec { addr: probe_addr.clone(), id: peer_id(9), entry: Entry::Incoming { at_ms: probe_at }, make: Box::new(move |nth| if nth > 1 { None } else { Some(crate::checks::c20::scripted_structured(script.clone())) }), chunk: 0, pipe: 1 << 20 });
+    }
+    let seq_v: Vec<usize> = seq.to_vec();
+    let pa = probe_addr.clone();
+    let tracker_fn: Box<dyn FnMut(u64, &crate::sim::Log) -> TrackerStep> = Box::new(move |nth, log| {
+        if (nth as usize) < seq_v.len() { return step_of(seq_v[nth as usize]); }
+        if !has_probe { return TrackerStep::Good; }
+        // gate: keep failing until the probe has been answered, at most 30 rounds after it connected
+        let answered = log.0.borrow().events.iter().any(|e| e.addr == pa && matches!(&e.kind, EvKind::Send { msg: Msg::Handshake { .. }, .. }));
+        if answered || nth >= probe_round + MAX_ROUNDS_UNANSWERED + 2 { TrackerStep::Good } else { step_of(seq_v[(nth as usize) % seq_v.len()]) }
+    });
+    let max_ms = (l + MAX_ROUNDS_UNANSWERED + 10) * 1100 + 30_000;
+    let cfg = SimCfg { torrent: torrent.clone(), peers, tracker: vec![], failpoints: None, max_virtual_ms: max_ms, stop_on_extract: true, linger_ms: 200, disk_on: disk_never, seed, tracker_fn: Some(tracker_fn), driver: None };
+    rep.evaluations += 1;
+    let o = run_sim(cfg, &ctx.scratch, 180);
+    let names: Vec<&str> = seq.iter().map(|k| KINDS[*k]).collect();
+    let desc = json!({"fault_sequence": if seq.len() <= 12 { json!(names) } else { json!(format!("{} faults cycling {:?}", seq.len(), &names[..4.min(names.len())])) }, "length": l, "family": label, "probe_connects_at_ms": if has_probe { Some(probe_at) } else { None }, "seed": seed});
+    if o.watchdog { rep.inconclusive(format!("watchdog ({:?})", desc)); return; }
+    rep.distinct(&hash64(&seq));
+    let trace = || -> Vec<String> {
+        let v: Vec<String> = o.events.iter().filter(|e| matches!(&e.kind, EvKind::Note { .. } | EvKind::Mgr { .. }) || e.addr == probe_addr).filter(|e| !matches!(&e.kind, EvKind::Mgr { kind, .. } if *kind == "SyncStats" || *kind == "Rotation")).filter(|e| !matches!(e.kind, EvKind::RecvWait { .. })).map(fmt_ev).collect();
+        let a: Vec<String> = v.iter().take(14).cloned().collect();
+        let b: Vec<String> = v.iter().rev().take(8).rev().cloned().collect();
+        [a, vec!["...".to_string()], b].concat()
+    };
+    if let Some(p) = o.panics.first() {
+        rep.violation(&format!("C19:panic:{}", panic_site(p)), p.clone(), json!({"scenario": desc, "trace": trace()}));
+        return;
+    }
+    let fails_seen = o.mgr().filter(|(_, k, _)| *k == "TrackerFail").count() as u64;
+    rep.count("tracker_failures_handled_by_manager", fails_seen);
+    rep.max("longest_fault_run", o.events.iter().filter(|e| matches!(&e.kind, EvKind::Note { text } if text.contains("-> fail") || text.contains("-> body"))).count() as u64);
+    // (1) while the tracker is failing the session keeps serving: the probe must be answered
+    if has_probe {
+        let connected = o.events.iter().find(|e| e.addr == probe_addr && matches!(e.kind, EvKind::PeerSent { .. })).map(|e| e.ms);
+        let answered = o.events.iter().find(|e| e.addr == probe_addr && matches!(&e.kind, EvKind::Send { msg: Msg::Handshake { .. }, .. })).map(|e| e.ms);
+        let announces_after_probe = o.events.iter().filter(|e| matches!(&e.kind, EvKind::Note { text } if text.starts_with("announce #")) && Some(e.ms) >= connected).count() as u64;
+        match (connected, answered) {
+            (Some(c), Some(a)) => {
+                let rounds_waited = o.events.iter().filter(|e| e.ms >= c && e.ms <= a && matches!(&e.kind, EvKind::Note { text } if text.starts_with("announce #"))).count() as u64;
+                if rounds_waited >= MAX_ROUNDS_UNANSWERED {
+                    rep.violation("C19:session-not-serving-while-tracker-fails", format!("a peer connected in at t={} ms while the tracker was failing; it was answered only at t={} ms, after {} further failing announce rounds (i.e. once the tracker stopped failing)", c, a, rounds_waited), json!({"scenario": desc, "trace": trace()}));
+                    return;
+                }
+                rep.count("probes_answered_while_tracker_failing", 1);
+                rep.max("probe_answer_delay_ms", a - c);
+            }
+            (Some(c), None) => {
+                rep.violation("C19:session-not-serving-while-tracker-fails", format!("a peer connected in at t={} ms while the tracker was failing; {} more announce rounds went by (manager handled {} failures) and its handshake was never answered", c, announces_after_probe, fails_seen), json!({"scenario": desc, "trace": trace()}));
+                return;
+            }
+            (None, _) => { rep.inconclusive("probe never connected"); return; }
+        }
+    }
+    // (2) the first good reply is followed by contacting the listed peers with a correct handshake
+    let good_at = o.mgr().find(|(_, k, _)| *k == "TrackerResp").map(|(e, _, _)| e.ms);
+    match good_at {
+        None => {
+            rep.violation("C19:good-reply-never-processed", format!("after {} faults the good reply was never handled by the manager (tracker announces made: {})", l, o.tracker_calls), json!({"scenario": desc, "trace": trace()}));
+        }
+        Some(t) => {
+            for k in 0..2 {
+                let hs = o.events.iter().find(|e| e.addr == addr(k) && matches!(&e.kind, EvKind::Send { msg: Msg::Handshake { info_hash, peer_id, .. }, .. } if *info_hash == torrent.info_hash() && *peer_id == crate::sim::OWN_ID));
+                match hs {
+                    Some(e) if e.ms <= t + 5_000 => (),
+                    other => {
+                        rep.violation("C19:listed-peers-not-contacted", format!("good reply handled at t={} ms but listed peer {} got {:?}", t, addr(k), other.map(|e| e.ms)), json!({"scenario": desc, "trace": trace()}));
+                        return;
+                    }
+                }
+            }
+            rep.count("fault_sequences_survived", 1);
+            rep.set("fault_sequence_lengths", format!("{}", l));
+            if rep.samples.len() < 3 { rep.sample(json!({"scenario": desc, "tracker_failures_handled": fails_seen, "good_reply_at_ms": t})); }
+        }
+    }
+}
+
+pub fn run(ctx: &Ctx, rep: &mut Report) {
+    rep.need("fault_sequences_survived", 20);
+    rep.need("probes_answered_while_tracker_failing", 20);
+    // (a) all sequences over the 4 fault kinds of length 0..=3 (85), sharded
+    let mut all: Vec<Vec<usize>> = vec![vec![]];
+    for len in 1..=3usize {
+        for c in 0..4usize.pow(len as u32) {
+            let mut v = vec![];
+            let mut x = c;
+            for _ in 0..len { v.push(x % 4); x /= 4; }
+            all.push(v);
+        }
+    }
+    let mut r = ctx.rng("c19b");
+    for (i, s) in all.iter().enumerate() {
+        if i % ctx.nshards != ctx.shard { continue; }
+        run_one(ctx, rep, s, r.next(), "exhaustive<=3");
+        rep.distinct_enumerated += 0;
+    }
+    rep.exhaustive_parts.push("all fault sequences over {connection refused, HTTP 500, garbage body, failure reason} of length 0..=3 (85)".into());
+    // (b) long runs around the channel capacity (64) and beyond
+    let longs: Vec<u64> = match ctx.tier { Tier::Quick => vec![10, 63, 64, 65, 70], Tier::Thorough => vec![10, 31, 32, 33, 63, 64, 65, 66, 70, 100, 130, 200] };
+    for (i, l) in longs.iter().enumerate() {
+        if i % ctx.nshards != ctx.shard { continue; }
+        let s: Vec<usize> = (0..*l).map(|j| (j % 4) as usize).collect();
+        run_one(ctx, rep, &s, r.next(), "long");
+    }
+    // (c) random sequences of length <= 8
+    for _ in 0..ctx.count(160, 4_000) {
+        let l = r.range(1, 8) as usize;
+        let s: Vec<usize> = (0..l).map(|_| r.usize(4)).collect();
+        run_one(ctx, rep, &s, r.next(), "random<=8");
+    }
+}
